@@ -7,7 +7,10 @@ MC     Descent.tla machines DetVisit / RndVisit over graph-shaped data (a node
        graphs with limits 1..4: T8d_Outcome (raised iff the container nesting of
        the unfolding exceeds the limit, same in both modes), T8d_Progress +
        T8d_Bounded (every step lengthens the output, which is bounded: bounded
-       time), T8d_Terminates (liveness under fairness).
+       time), T8d_Linear (on cyclic graphs the error comes after O(limit) steps
+       in both modes, limits up to 6; the randomised machine has the depth probe
+       of _check_depth as its first phase), T8d_Terminates (liveness under
+       fairness).
 GEN    every terminal state (graph, limit, mode, status) is materialised as real
        dict/list objects (cycles included) and find('$..*'), '$..a', '$..[?@]' run
        under a subclass with that max_recursion_depth: deterministic mode once,
@@ -53,6 +56,28 @@ def materialise(g):
                 else:
                     objs[i].append(objs[kid - 1])
     return objs[g["root"] - 1]
+
+
+def is_cyclic(g) -> bool:
+    """A cycle through containers is reachable from the root (the unfolding is infinite)."""
+    kids, cont = g["kids"], g["cont"]
+    state = {}
+
+    def visit(i):
+        if not cont[i - 1]:
+            return False
+        if state.get(i) == 1:
+            return True
+        if state.get(i) == 2:
+            return False
+        state[i] = 1
+        for k in kids[i - 1]:
+            if visit(k):
+                return True
+        state[i] = 2
+        return False
+
+    return visit(g["root"])
 
 
 _COMPILED = {}
@@ -173,12 +198,18 @@ def run(chk: core.Check, tier: str, seed: int) -> None:
     jp = core.import_repo()
     rng = random.Random(seed)
     base = ("SPECIFICATION DSpec\nCONSTANTS\n  Graphs <- MCGraphs\n  Limits = {lim}\n  Modes = {modes}\n"
-            "INVARIANT T8b_Valid\nINVARIANT T8d_Outcome\nINVARIANT T8d_Bounded\nINVARIANT ExportDone\n"
-            "PROPERTY T8d_Progress\n{live}CHECK_DEADLOCK FALSE\n")
+            "INVARIANT T8b_Valid\nINVARIANT T8d_Outcome\nINVARIANT T8d_Bounded\nINVARIANT T8d_Linear\nINVARIANT T8d_ProbeFirst\n"
+            "INVARIANT ExportDone\nPROPERTY T8d_Progress\n{live}CHECK_DEADLOCK FALSE\n")
+    # (the larger limits are there for T8d_Linear: on cyclic graphs the error comes after at most 4 * (limit + 1) steps in BOTH
+    #  modes - a traversal that only notices a too-deep instance when it is dequeued breadth-first needs 2^limit steps)
     runs = [("MC_DescentC2", "{1, 2, 3}", '{"det"}', None), ("MC_DescentC2", "{1, 2}", '{"rnd"}', None),
+            ("MC_DescentC2", "{4, 6}", '{"det", "rnd"}', None),
             ]
     if tier != "quick":
         runs.append(("MC_DescentC3", "{1, 2, 3, 4}", '{"det", "rnd"}', 1500))
+        # every graph of three ids (containers all objects or all arrays), exhaustively
+        runs.append(("MC_DescentC3", "{1, 2, 3}", '{"det"}', None))
+        runs.append(("MC_DescentC3", "{1, 2}", '{"rnd"}', None))
     terminal = {}
     for module, lim, modes, sim in runs:
         cfg = base.format(lim=lim, modes=modes, live="" if sim else "PROPERTY T8d_Terminates\n")
@@ -191,7 +222,7 @@ def run(chk: core.Check, tier: str, seed: int) -> None:
         else:
             core.require_ok(res, module)
         chk.add_tlc(f"{module} limits {lim} modes {modes}" + (f" simulate num={sim}/worker depth 60" if sim else " exhaustive") +
-                    ": T8b, T8d_Outcome, T8d_Bounded, T8d_Progress" + ("" if sim else ", T8d_Terminates"), res)
+                    ": T8b, T8d_Outcome, T8d_Bounded, T8d_Linear, T8d_ProbeFirst, T8d_Progress" + ("" if sim else ", T8d_Terminates"), res)
         for line in res.out.splitlines():
             line = line.strip()
             if line.startswith('"GEN '):
@@ -214,7 +245,9 @@ def run(chk: core.Check, tier: str, seed: int) -> None:
             chk.notes["stopped_early"] = "six evaluations did not finish within the time limit: the remaining generated cases were skipped"
             break
         for q in (QUERIES if tier != "quick" else QUERIES[:2] + [rng.choice(QUERIES[2:])]):
-            got = outcome(jp, env, q, doc, mode == "rnd")
+            # (limits beyond 3 exist for the time bound: a few outcomes of the random choices suffice there, and a tree on which
+            #  every run needs 2^limit steps must not keep the check itself busy for hours)
+            got = outcome(jp, env, q, doc, mode == "rnd", cap=(400 if limit <= 3 else 6))
             chk.evaluations += 1
             kinds = {o[0] for o in got}
             if g["status"] == "raised":
@@ -230,6 +263,30 @@ def run(chk: core.Check, tier: str, seed: int) -> None:
                                "observed": sorted(kinds)},
                               {"graph": {"kids": g["kids"], "obj": g["obj"], "cont": g["cont"]}, "limit": limit, "mode": mode,
                                "query": q, "expected": g["status"], "observed": sorted(map(str, got))})
+    # ---- bounded TIME in terms of the limit: cyclic graphs under realistic limits ------------------------------
+    # (T8d_Linear: the error comes after O(limit) steps; 2^limit steps at limit 30 are already 20 s, at the default 100 a hang)
+    seen_cyc = set()
+    for (gkey, _limit, _mode), g in order:
+        if gkey in seen_cyc or not is_cyclic(g):
+            continue
+        seen_cyc.add(gkey)
+        doc = materialise(g)
+        for big in ((30, 100, 1000) if tier == "quick" else (30, 64, 100, 101, 1000, 3000)):
+            for mode in ("det", "rnd"):
+                env = envs.setdefault((big, mode), probes.make_env(jp, [], [], nondeterministic=(mode == "rnd"), max_depth=big))
+                for q in ("$..*", "$..[?@]"):
+                    if _TIMEOUTS[0] >= 6:
+                        break
+                    got = outcome(jp, env, q, doc, mode == "rnd", cap=8)
+                    chk.evaluations += 1
+                    chk.nontrivial.add((gkey, big, mode, q))
+                    kinds = {o[0] for o in got}
+                    if kinds != {"raised"}:
+                        chk.violation({"clause": "self-referential data under a realistic limit: no JSONPathRecursionError in bounded time",
+                                       "mode": mode, "observed": sorted(kinds)},
+                                      {"graph": {"kids": g["kids"], "obj": g["obj"], "cont": g["cont"]}, "limit": big, "mode": mode,
+                                       "query": q, "expected": "raised", "observed": sorted(map(str, got))[:3]})
+    chk.notes["cyclic_graphs_at_realistic_limits"] = len(seen_cyc)
     chk.traces += len(terminal)
     any_t = next(iter(terminal.values()))
     chk.sample({"graph": {"kids": any_t["kids"], "obj": any_t["obj"], "cont": any_t["cont"]}, "limit": any_t["limit"], "mode": any_t["mode"],
